@@ -29,7 +29,7 @@ vars == <<cells, items, np, nph, done>>
 P == INSTANCE TemplateParser WITH WidthOverflow <- OverflowMode, Backtrack <- BacktrackMode
 
 KeyCells(k) == CASE k = "k" -> <<107>> [] k = "zz" -> <<122, 122>> [] k = "pos" -> K_pos [] k = "len" -> K_len
-                 [] k = "msg" -> K_msg [] k = "prefix" -> K_prefix [] k = "Zz9" -> <<90, 122, 57>> [] OTHER -> <<113>>
+                 [] k = "msg" -> K_msg [] k = "wide_msg" -> K_wide_msg [] k = "prefix" -> K_prefix [] k = "Zz9" -> <<90, 122, 57>> [] OTHER -> <<113>>
 AlignCell(a) == CASE a = "<" -> 60 [] a = "^" -> 94 [] a = ">" -> 62 [] OTHER -> 0
 WidthCells(w) == CASE w = "0" -> <<48>> [] w = "1" -> <<49>> [] w = "3" -> <<51>> [] w = "05" -> <<48, 53>>
                    [] w = "65535" -> <<54, 53, 53, 51, 53>> [] w = "65536" -> <<54, 53, 53, 51, 54>>
